@@ -135,35 +135,17 @@ def _err_variant(I, o, r):
     return getattr(e, "name", repr(e)), e
 
 
-def verify_claims_table(facts):
+def _table(I, outs, T, bid, line, file, label=""):
+    """the behaviour table read off the outcomes of a run in which the authenticated text is called T"""
     out = []
-    bs = [b for bid, b in facts.bodies.items() if (b.get("name") or bid.rsplit("::", 1)[-1]) == "verify_claims" and "GenericParser" in bid]
-    if len(bs) != 1:
-        for r in ("C15.R1", "C16.R4", "C14.R4"):
-            _f(out, r, False, "GenericParser::verify_claims", "anchor missing", "expected exactly one verify_claims, found %d" % len(bs))
-        return out
-    b = bs[0]
-    v = M.view(facts, b)
-    file, line, bid = v.file(), b["line"], b["id"]
-    I = interp(facts)
-    st = A.State()
-    me = st.new_cell(parser_value(st))
-    outs = I.run(b, [A.Ptr(me), A.Seq("token", A.Aff.sym("len(token)"), kind="str")], st)
-    jn = lambda k: "json(token)[%s]" % k
-    undecided = [o for o in outs if o.kind != "return" or o.state.unmodelled or any("undecided" in n for n in o.state.notes)]
-    if undecided or not outs:
-        o = undecided[0] if undecided else None
-        why = "no outcome" if o is None else "%s; unmodelled %s; notes %s; when [%s]" % (o.kind if o.kind != "return" else "return", o.state.unmodelled[:2], [n for n in o.state.notes if "undecided" in n][:1], " & ".join(o.state.cond)[-200:])
-        for r in ("C15.R1", "C15.R2", "C16.R2", "C16.R3", "C16.R4", "C16.R6", "C14.R4"):
-            _f(out, r, None, bid, "verify_claims not decided by the abstract interpreter", why, line, file)
-        return out
+    jn = lambda k: "json(%s)[%s]" % (T, k)
     n_ok = 0
     probs = {"C15.R1": [], "C15.R2": [], "C16.R2": [], "C16.R3": [], "C16.R4": [], "C16.R6": [], "C14.R4": []}
     for o in outs:
         s = o.state
         cond = " & ".join(s.cond)
         r = I.resolve(s, o.value)
-        parsed = any(c == "json(token) parses" for c in s.cond)
+        parsed = any(c == "json(%s) parses" % T for c in s.cond)
         calls = [e for e in s.events if e[0] == "validator"]
         per = {}
         for e in calls:
@@ -195,7 +177,7 @@ def verify_claims_table(facts):
         if is_ok:
             n_ok += 1
             okv = MD.deref(I, s, r.fields.get("0"))
-            if not (isinstance(okv, A.Sym) and okv.name == "json(token)"):
+            if not (isinstance(okv, A.Sym) and okv.name == "json(%s)" % T):
                 probs["C14.R4"].append("the value returned is %r, not the parsed payload" % (okv,))
             for k in VALID:
                 if len(per.get("V_" + k, [])) != 1:
@@ -246,13 +228,105 @@ def verify_claims_table(facts):
             "C16.R6": "a claim that has a validator is decided by the validator alone",
             "C14.R4": "the value returned is the parsed payload, unmodified"}
     for r, ps in probs.items():
-        _f(out, r, not ps, bid, "verify_claims behaviour" if not ps else ps[0][:90], "; ".join(sorted(set(ps)))[:600], line, file, desc=desc[r])
+        _f(out, r, not ps, bid, "verify_claims behaviour" if not ps else ps[0][:90], "; ".join(sorted(set(ps)))[:600], line, file, desc=(label + ": " if label else "") + desc[r])
     return out
 
 
+
+
+def verify_claims_table(facts, entries=None):
+    out = []
+    bs = [b for bid, b in facts.bodies.items() if (b.get("name") or bid.rsplit("::", 1)[-1]) == "verify_claims" and "GenericParser" in bid]
+    if len(bs) != 1 and entries is not None:
+        # no function plays the part of verify_claims on its own: the table is read off the eight parse methods interpreted whole, with
+        # the authenticating core call summarised
+        return parse_level(facts, entries)[0]
+    if len(bs) != 1:
+        for r in ("C15.R1", "C16.R4", "C14.R4"):
+            _f(out, r, False, "GenericParser::verify_claims", "anchor missing", "expected exactly one verify_claims, found %d" % len(bs))
+        return out
+    b = bs[0]
+    v = M.view(facts, b)
+    file, line, bid = v.file(), b["line"], b["id"]
+    I = interp(facts)
+    st = A.State()
+    me = st.new_cell(parser_value(st))
+    outs = I.run(b, [A.Ptr(me), A.Seq("token", A.Aff.sym("len(token)"), kind="str")], st)
+    undecided = [o for o in outs if o.kind != "return" or o.state.unmodelled or any("undecided" in n for n in o.state.notes)]
+    if undecided or not outs:
+        o = undecided[0] if undecided else None
+        why = "no outcome" if o is None else "%s; unmodelled %s; notes %s; when [%s]" % (o.kind if o.kind != "return" else "return", o.state.unmodelled[:2], [n for n in o.state.notes if "undecided" in n][:1], " & ".join(o.state.cond)[-200:])
+        for r in ("C15.R1", "C15.R2", "C16.R2", "C16.R3", "C16.R4", "C16.R6", "C14.R4"):
+            _f(out, r, None, bid, "verify_claims not decided by the abstract interpreter", why, line, file)
+        return out
+    return _table(I, outs, "token", bid, line, file)
+
+
 # ------------------------------------------------------------------ the eight parse methods: claims only after authentication
+def _core_stub(I, st, args):
+    st.events.append(("core_call", [MD.describe(I, st, a) if i != 1 else repr(MD.deref(I, st, a))[:40] for i, a in enumerate(args)]))
+    return A.Sym("core_result", attrs={"adt": "core::result::Result", "make_variant": lambda s2, sym, variant: A.ok(A.Seq("plaintext", A.Aff.sym("len(plaintext)"), kind="str")) if variant == "Ok" else A.err(A.Sym("PasetoError"))})
+
+
+_pl = {}
+
+
+def parse_level(facts, entries):
+    """(table findings, contract findings): every GenericParser::parse interpreted whole on the concrete parser configuration with only the
+    core call summarised - however the claim checking is factored into helpers.  Paths on which the core call failed must not examine
+    the payload at all; on the others the behaviour table applies to json(plaintext)."""
+    k = id(facts)
+    if k in _pl:
+        return _pl[k]
+    table, contracts = [], []
+    for e in S.select(entries, "generic", "consumer"):
+        b = e.body
+        v = M.view(facts, b)
+        bid, file, line = e.id, v.file(), b["line"]
+        I = interp(facts, stubs=[(re.compile(r"paseto::Paseto<.*>>::(try_decrypt|try_verify)$"), _core_stub)])
+        st = A.State()
+        me = st.new_cell(parser_value(st))
+        outs = I.run(b, [A.Ptr(me), A.Seq("token", A.Aff.sym("len(token)"), kind="str"), A.Ptr(st.new_cell(A.Sym("key")))], st)
+        und = [o for o in outs if o.kind != "return" or o.state.unmodelled or any("undecided" in n for n in o.state.notes)]
+        if und or not outs:
+            o = und[0] if und else None
+            why = "no outcome" if o is None else "%s %s %s" % (o.kind, o.state.unmodelled[:2], [n for n in o.state.notes if "undecided" in n][:1])
+            _f(contracts, "C03.R6", None, bid, "parse not decided by the abstract interpreter", why, line, file)
+            for r in ("C15.R1", "C15.R2", "C16.R2", "C16.R3", "C16.R4", "C16.R6", "C14.R4"):
+                _f(table, r, None, bid, "parse not decided by the abstract interpreter", why, line, file)
+            continue
+        probs = []
+        authed = []
+        for o in outs:
+            s = o.state
+            core = [x for x in s.events if x[0] == "core_call"]
+            if len(core) != 1:
+                probs.append("the authenticating core call is made %d times on a path" % len(core))
+                continue
+            a = core[0][1]
+            want = ["token", None, "self.footer"] + (["self.assertion"] if e.vp[0] in ("V3", "V4") else [])
+            if [a[0], None] + a[2:] != want or "key" not in a[1]:
+                probs.append("the core call receives %s instead of (token, key, self.footer%s)" % (a, ", self.implicit_assertion" if len(want) > 3 else ""))
+            if "core_result is Ok" in s.cond:
+                authed.append(o)
+                continue
+            touched = [x for x in s.events if x[0] == "validator"] or [c for c in s.cond if "json(" in c or c.startswith("to_value(expected")]
+            r = I.resolve(s, o.value)
+            if touched:
+                probs.append("claims are examined although the core call did not succeed (%s)" % (touched[:2],))
+            if isinstance(r, A.Struct) and r.variant == "Ok":
+                probs.append("Ok is returned although the core call did not succeed")
+        _f(contracts, "C03.R6", not probs, bid, "claims only after authentication" if not probs else probs[0][:80], "; ".join(sorted(set(probs)))[:500], line, file,
+           desc="%s: core call with (token, key, self.footer, ..); the payload is examined only on its Ok value" % e.label)
+        table += _table(I, authed, "plaintext", bid, line, file, label=e.label)
+    _pl[k] = (table, contracts)
+    return _pl[k]
+
+
 def parse_contracts(facts, entries):
     out = []
+    if not [1 for bid, b in facts.bodies.items() if (b.get("name") or bid.rsplit("::", 1)[-1]) == "verify_claims" and "GenericParser" in bid]:
+        return parse_level(facts, entries)[1]
     for e in S.select(entries, "generic", "consumer"):
         b = e.body
         v = M.view(facts, b)
@@ -416,7 +490,7 @@ _memo = {}
 def analyse(facts, entries=None):
     k = id(facts)
     if k not in _memo:
-        fs = verify_claims_table(facts)
+        fs = verify_claims_table(facts, entries)
         if entries is not None:
             fs += parse_contracts(facts, entries)
         _memo[k] = fs
